@@ -4,6 +4,7 @@ CONSTANTS
   MaxInputs = 2
   Alphabet = "full"
   EmitOpts = 1
+  EmitNames = {"a.c", "f.S"}
   EmitInputs = 2
   Devs = {"ArgcDesync", "OneCharName", "EmitQbeFile", "HeaderLinked"}
 INVARIANTS Inv_Refines Inv_Explained Inv_Emit
